@@ -503,7 +503,9 @@ class IndexReader(object):
                 yield (vec.id(), vec.weight())
                 vec.next()
         else:
-            format_ = self.schema[fieldname].format
+            # The vector's values are encoded with the field's *vector* format,
+            # which need not be the format of its postings
+            format_ = self.schema[fieldname].vector
             decoder = format_.decoder(astype)
             while vec.is_active():
                 yield (vec.id(), decoder(vec.value()))
